@@ -1,7 +1,49 @@
-(* C13 - DNS tunnel sessions are isolated from each other and from spoofers. (proofs: Sessions/UserTable_proofs.v, in progress) *)
+(* C13 - DNS tunnel sessions are isolated from each other and from spoofers. Proofs: Sessions/UserTable_proofs.v
+   Model: Sessions/UserTable.v (object store + live/retired tables; the sweep's assignments come from the source via Gen/Sessions.v). *)
 From Coq Require Import List NArith ZArith Bool.
-From SA Require Import Base.Tok Sessions.UserTable.
+From SA Require Import Base.Tok Gen.Sessions Queue.Queues Sessions.UserTable Sessions.UserTable_proofs.
 Import ListNotations.
 
-Theorem c13_placeholder : live empty_table = repeat None nusers.
-Proof. reflexivity. Qed.
+(* Concurrent sessions get distinct identifiers: no object sits in two live slots, the slot is its identifier, and a new
+   session is given a free one. *)
+Theorem c13_distinct_ids : forall t i j r u, reachable t ->
+  get (live t) i = Some r -> deref t r = Some u ->
+  uid u = i /\ (get (live t) j = Some r -> j = i) /\ (i < max_user_count)%N.
+Proof. exact distinct_ids. Qed.
+Theorem c13_new_id_free : forall t a now t' u, reachable t -> new_user t a now = (t', Some u) -> get (live t) (uid u) = None.
+Proof. exact new_id_free. Qed.
+
+(* A message carrying a live session's identifier but coming from a different address is rejected without reading,
+   acknowledging or altering anything. *)
+Theorem c13_spoof_rejected : forall t r id a now u, reachable t -> needs_uid r = true ->
+  live_conn t id = Some u -> a <> addr u ->
+  is_err (snd (on_message t r id a now)) = true /\ same_tables t (fst (on_message t r id a now)).
+Proof. exact spoof_rejected. Qed.
+
+(* A closed (or never allocated) identifier cannot be used to inject or extract data. *)
+Theorem c13_closed_id_dead : forall t r id a now, reachable t -> needs_uid r = true ->
+  live_conn t id = None ->
+  is_err (snd (on_message t r id a now)) = true /\ same_tables t (fst (on_message t r id a now)).
+Proof. exact dead_id. Qed.
+
+(* Each session's inbound stream contains only its own peer's data. *)
+Theorem c13_streams_own : forall t o s u u', reachable t ->
+  deref t s = Some u -> deref (fst (step t o)) s = Some u' ->
+  in_total (u_in u') <> in_total (u_in u) ->
+  exists ack pkt now, o = OMsg (RPacket ack pkt) (uid u) (addr u) now /\ get (live t) (uid u) = Some s.
+Proof. exact stream_own. Qed.
+
+(* A live session is never terminated because of the closing or expiry of another session. *)
+Theorem c13_no_collateral : forall t o id s u, reachable t ->
+  get (live t) id = Some s -> deref t s = Some u ->
+  get (live (fst (step t o))) id = Some s \/ terminates o s id (addr u) (last u).
+Proof. exact no_collateral. Qed.
+
+(* the facts about the source that the proofs use (they stop compiling if the source changes) *)
+Theorem c13_source_facts : sweep_loop1 = [(false, false); (true, true)] /\ sweep_loop2 = [(true, false)] /\ close_checks_identity = true.
+Proof. repeat split; reflexivity. Qed.
+
+Example c13_nonvacuous :
+  let t := fst (run empty_table [OMsg (RVersion true) 0 2 0; OMsg (RVersion true) 0 1 0; OMsg RClose 1 1 5; OMsg (RVersion true) 0 1 9]) in
+  reachable t /\ get (live t) 1 = Some 2%nat /\ get (old t) 1 = Some 1%nat.
+Proof. cbv zeta. split; [eexists; reflexivity | split; vm_compute; reflexivity]. Qed.
